@@ -204,6 +204,8 @@ S_none == << >>
 \* dronecheck service alone (no service ever takes a password), two services of which one's name is a prefix of the other's
 S_unk == << [name |-> "a1.svc", type |-> "login"], [name |-> "m5.svc", type |-> "gopher"], [name |-> "z9.svc", type |-> "dronecheck"] >>
 S_drone == << [name |-> "b2.svc", type |-> "dronecheck"] >>
+\* no dronecheck and no combined service: nothing but login-type protocols
+S_ipr2 == << [name |-> "a1.svc", type |-> "login-ipr"], [name |-> "b2.svc", type |-> "login"] >>
 S_pref == << [name |-> "a1.svc", type |-> "dronecheck"], [name |-> "a1.svc2", type |-> "login"] >>
 S_noxq == << [name |-> "", type |-> "@noxquery"] >>
 NoBug == {}
